@@ -318,7 +318,15 @@ def get_inline_fragments_from_selection_set(
 
     for selection in selection_set.selections or []:
         if isinstance(selection, InlineFragmentNode):
-            inline_fragments.append(selection)
+            if selection.type_condition is None:
+                # no type condition: the fragment applies to the enclosing type
+                inline_fragments.extend(
+                    get_inline_fragments_from_selection_set(
+                        selection.selection_set, fragments_definitions
+                    )
+                )
+            else:
+                inline_fragments.append(selection)
         elif isinstance(selection, FragmentSpreadNode):
             fragment_def = fragments_definitions[selection.name.value]
             inline_fragments.extend(
